@@ -335,7 +335,7 @@ func splitArgs(s string) []string {
 }
 
 var reLoop = regexp.MustCompile(`^loop\s+(\d+)\s*:\s*(invariant|decreases|iteration ghost|iteration ensures)\s+(.*)$`)
-var reAtCall = regexp.MustCompile(`^at\s+(call\s+)?(\S+?)\s*:\s*(after\s+)?(assert|assume|ghost|allocbound)\s+(.*)$`)
+var reAtCall = regexp.MustCompile(`^at\s+(call\s+|recv\s+)?(\S+?)\s*:\s*(after\s+)?(assert|assume|ghost|allocbound)\s+(.*)$`)
 var reGhost = regexp.MustCompile(`^ghost\s+(\w+)\s*:=\s*(.*)$`)
 var reSpecFn = regexp.MustCompile(`^spec\s+func\s+(\w+)\s*\(([^)]*)\)\s*(\w+)\s*(=\s*(.*))?$`)
 var reAxiom = regexp.MustCompile(`^axiom\s+(\w+)\s*(\[([^\]]*)\])?\s*:\s*(.*)$`)
@@ -600,7 +600,11 @@ func (db *SpecDB) loadText(data, path, pkgPath string, extern bool) error {
 					return err
 				}
 				h.Cl = cl
-				cur.Hooks[m[2]] = append(cur.Hooks[m[2]], h)
+				hk := m[2]
+				if strings.TrimSpace(m[1]) == "recv" {
+					hk = "recv:" + hk
+				}
+				cur.Hooks[hk] = append(cur.Hooks[hk], h)
 			case "ghost":
 				m := reGhost.FindStringSubmatch(line)
 				if m == nil {
@@ -708,6 +712,7 @@ type SpecEnv struct {
 	fn      *ssa.Function
 	pkg     *types.Package
 	locals  func(name string) (Val, bool)
+	loopOrd int             // ordinal of the loop whose clause is being evaluated (iteration clauses)
 	scope   *ssa.BasicBlock // program point of the clause: only variables declared in dominating blocks are in scope
 	inOld   bool
 	entryParams map[string]Val // entry values of the parameters (what old(p) means; also p itself in pre/postconditions)
@@ -1322,6 +1327,15 @@ func (env *SpecEnv) evalCall(x *ast.CallExpr) Val {
 		}
 		rng := And(Le(lo, bv), Lt(bv, hi))
 		if fname == "forall" {
+			// nested universal quantifiers are merged into one binder list, so that the solver can
+			// choose a (multi-)pattern over both variables
+			if strings.HasPrefix(body.S, "(forall (") {
+				if k := strings.Index(body.S, ")) "); k > 0 {
+					binders := body.S[len("(forall ("):k+1]
+					inner := body.S[k+3 : len(body.S)-1]
+					return boolVal(Term{fmt.Sprintf("(forall ((%s Int) %s) (=> %s %s))", bv.S, binders, rng.S, inner), SBool})
+				}
+			}
 			return boolVal(Term{fmt.Sprintf("(forall ((%s Int)) %s)", bv.S, Implies(rng, body).S), SBool})
 		}
 		return boolVal(Term{fmt.Sprintf("(exists ((%s Int)) %s)", bv.S, And(rng, body).S), SBool})
@@ -1411,6 +1425,8 @@ func (env *SpecEnv) evalCall(x *ast.CallExpr) Val {
 		rng := And(Le(sv.L[1], bv), Lt(bv, Add(sv.L[1], sv.L[2])))
 		body := Ne(Select(Select(h, sv.L[0]), bv), I(0))
 		return boolVal(Term{fmt.Sprintf("(forall ((%s Int)) %s)", bv.S, Implies(rng, body).S), SBool})
+	case "chanRef":
+		return intVal(arg(0).L[0])
 	case "sliceArr":
 		v := arg(0)
 		if len(v.L) != 4 {
@@ -1473,6 +1489,47 @@ func (env *SpecEnv) evalCall(x *ast.CallExpr) Val {
 			specFail("unknown identifier: no range over %s in progress", id.Name)
 		}
 		return g
+	case "itercount", "iterarg":
+		// events since the start of the current loop iteration (the last loop cut on this path)
+		lit, ok := x.Args[0].(*ast.BasicLit)
+		if !ok {
+			specFail("%s needs a string literal event name", fname)
+		}
+		name, _ := strconv.Unquote(lit.Value)
+		tr := env.cur().trace
+		start := 0
+		marker := fmt.Sprintf("loop*%d", env.loopOrd)
+		for i, ev := range tr {
+			if ev.Name == marker {
+				start = i + 1
+			}
+		}
+		if fname == "itercount" {
+			n := 0
+			for _, ev := range tr[start:] {
+				if ev.Name == name {
+					n++
+				}
+			}
+			return intVal(I(int64(n)))
+		}
+		kv, ok := arg(1).term().IntLit()
+		if !ok {
+			specFail("iterarg needs a literal index")
+		}
+		for _, ev := range tr[start:] {
+			if ev.Name == name {
+				if int(kv.Int64()) >= len(ev.Args) {
+					specFail("event %s has %d arguments", name, len(ev.Args))
+				}
+				a := ev.Args[kv.Int64()]
+				if a.Sort == SBool {
+					return boolVal(a)
+				}
+				return intVal(a)
+			}
+		}
+		specFail("unknown identifier: no event %q in this iteration", name)
 	case "evarg":
 		// evarg("event", k): k-th recorded argument of the first occurrence of the event on this path
 		lit, ok := x.Args[0].(*ast.BasicLit)
@@ -1507,7 +1564,7 @@ func (env *SpecEnv) evalCall(x *ast.CallExpr) Val {
 		return boolVal(env.cur().mapHas(m, k))
 	case "closed":
 		ch := arg(0)
-		return boolVal(env.cur().chanClosed(ch.L[0]))
+		return boolVal(env.cur().chanClosed(ch))
 	case "isfresh":
 		v := arg(0)
 		if env.callSite {
